@@ -97,13 +97,17 @@ def sig_tt(font, name):
     return ("S", tuple(g.endPtsOfContours), tuple(f & 0x81 for f in g.flags))
 
 
-def sig_cff(font, name):
+def sig_cff(font, name, closing_explicit=False):
+    """per contour the sequence of charstring drawing operators - what the variable-font merger aligns. Two readings, because a closed contour's last
+    line may be written out or left implied: raw = the explicit operators; closing_explicit = plus the implied closing line where the last explicit
+    point is not the start point. Masters are compatible when they agree in either reading (rounding can move a master's last point onto its first,
+    and a zero-length closing line in one master is written out by fontTools' point-to-segment conversion: neither changes what can be merged)."""
     out = []
     for c in otread.draw_cycles(font.getGlyphSet(), name):
         ops = [op for op, _ in c[1]]
         end = c[1][-1][1][-1] if c[1] else c[0]
-        if end != c[0]:
-            ops.append("line")  # the implied closing line made explicit
+        if closing_explicit and end != c[0]:
+            ops.append("line")
         out.append(tuple(ops))
     return ("O", tuple(out)) if out else ("E",)
 
@@ -126,6 +130,9 @@ def run_case(case, ctx):
         raise Discard("resolved coordinate beyond +-3000 (perturbed masters would leave the format range)")
     module = S.ufo_module(case["module"])
     ds, fonts = F.build_designspace(fam, module)
+    if entry != "TTFs" and "skipExportGlyphs" in opts:
+        # the designspace entry points take the skip list from the designspace lib (a skipExportGlyphs argument is overridden there)
+        ds.lib["public.skipExportGlyphs"] = list(opts.pop("skipExportGlyphs"))
     kw = dict(useProductionNames=False, featureWriters=[], **opts)
     try:
         with guard("compileInterpolatable" + entry, allowed=(Cu2QuError,)):
@@ -153,6 +160,12 @@ def run_case(case, ctx):
         if sparse:
             # empty placeholder bases in the sparse master are allowed
             vals = {s for i, s in sigs.items() if not (i >= nfull and s == ("E",))}
+        if len(vals) > 1 and not ttf:
+            alt = {i: sig_cff(f, n, closing_explicit=True) for i, f in enumerate(out) if n in f.getGlyphOrder()}
+            avals = {s_ for i, s_ in alt.items() if not (sparse and i >= nfull and s_ == ("E",))}
+            if len(avals) <= 1:
+                vals = avals
+                ctx.count("cff-glyphs-compatible-modulo-explicit-closing-line")
         if len(vals) > 1:
             raise Violation("masters are not point-compatible for a glyph", glyph=n, signatures={str(i): repr(s)[:300] for i, s in sigs.items()}, tweaks=fam["tweaks"], options=case["opts"])
         ctx.count("glyph-signatures-compared")
@@ -160,7 +173,7 @@ def run_case(case, ctx):
         sp = out[-1]
         base_gi = R.glyph_index(fam["base"])
         layer = set(fam["sparse"]["names"])
-        skip = set(opts.get("skipExportGlyphs", []))
+        skip = set(case["opts"].get("skipExportGlyphs", []))
         allowed = {".notdef"} | layer
         changed = True
         while changed:  # closure under "is a component of / has as component"
